@@ -414,6 +414,48 @@ def all_elements_worker(part, order):
     part.outcome(("all-elements", order))
 
 
+def far_origin_worker(part, offset):
+    """
+    molecules far from the coordinate origin (cut out of a big simulation box): the density is a function of point-atom DISTANCES, which
+    float32 coordinates at 1e2 .. 1e4 A still give to ~1e-7 relative when formed as differences - but not when formed as
+    |p|^2 + |a|^2 - 2 p.a.  The reference is evaluated at the float32-rounded coordinates the kernel receives
+    """
+    from chmpy.interpolate.density import PromoleculeDensity, StockholderWeight
+
+    off = np.array(offset, dtype=float)
+    zs = np.array([8, 1, 1, 6, 17])
+    sites = np.array([[0.0, 0.0, 0.1173], [0.0, 0.7572, -0.4692], [0.0, -0.7572, -0.4692], [2.9, 0.2, 0.1], [0.3, -3.1, 1.2]])
+    pts = eval_points(sites)
+    s_in = (sites + off)
+    p_in = (pts + off)
+    s32 = s_in.astype(np.float32).astype(np.float64)
+    p32 = p_in.astype(np.float32).astype(np.float64)
+    keep = np.min(np.linalg.norm(p32[:, None, :] - s32[None, :, :], axis=2), axis=1) >= 0.3
+    case = {"kind": "far-origin", "offset": [float(x) for x in off]}
+    part.ev()
+    part.tr(2)
+    part.nstates(1)
+    try:
+        got = np.asarray(PromoleculeDensity((zs, s_in)).rho(p_in), dtype=np.float64)
+        w = np.asarray(StockholderWeight.from_arrays(zs[:3], s_in[:3], zs[3:], s_in[3:]).weights(p_in), dtype=np.float64)
+    except Exception as e:
+        part.fail("far-origin:raise", "a molecule at %s raised %r" % (list(off), e), case)
+        return
+    want, alt = interp.promolecule_rho(zs, s32, p32)
+    e = relerr(got[keep], want[keep], alt[keep])
+    part.dev("far_origin_sum_rel", e)
+    if not (e <= REL):
+        part.fail("far-origin:sum-of-atoms", "density of a 5-atom molecule displaced by %s deviates from the sum of tabulated atomic densities at the coordinates handed over (rel. err %.3g)"
+                  % ([float(x) for x in off], e), case)
+    wa, _ = interp.promolecule_rho(zs[:3], s32[:3], p32)
+    wb, _ = interp.promolecule_rho(zs[3:], s32[3:], p32)
+    dw = float(np.abs(w[keep] - (wa / (wa + wb))[keep]).max())
+    part.dev("far_origin_weight_abs", dw)
+    if not (dw <= 2e-4):
+        part.fail("far-origin:weights", "stockholder weights of a molecule displaced by %s deviate by %.3g from interior/(interior+exterior)" % ([float(x) for x in off], dw), case)
+    part.outcome(("far-origin", float(np.abs(off).max()) >= 1e3))
+
+
 def empty_exterior_worker(part, zi):
     """an isolated molecule: NO exterior atoms at all (shape (0,3)); the weight is interior / (interior + background), i.e. 1 without
     background and below 1 with it - through the constructor and through from_arrays"""
@@ -537,6 +579,9 @@ def worker(part, job, seed):
     if job[0] == "pairs":
         pairs_worker(part, job[1])
         return
+    if job[0] == "far-origin":
+        far_origin_worker(part, job[1])
+        return
     if job[0] == "all-elements":
         all_elements_worker(part, job[1])
         return
@@ -595,6 +640,7 @@ def run(ctx):
     jobs += [("empty-exterior", zi) for zi in ((8, 1, 1), (6,), (92, 17))]
     jobs += [("pairs", list(c)) for c in chunked(range(1, 104), 4)]
     jobs += [("all-elements", o) for o in ("ascending", "descending", "scrambled")]
+    jobs += [("far-origin", o) for o in ((0.0, 0.0, 0.0), (100.0, -200.0, 300.0), (1000.0, -500.0, 2000.0), (-3000.0, 0.0, 0.0), (10000.0, 20000.0, -15000.0))]
     jobs += [("cluster", n) for n in ((255, 256, 257, 1000, 4095, 4096, 4097, 8193) if not ctx.thorough else (255, 256, 257, 1000, 4095, 4096, 4097, 8193, 16385, 32769, 65537))]
     bs = BATCH_SIZES if ctx.thorough else tuple(n for n in BATCH_SIZES if n <= 70001)
     jobs += [("batch", bs[i::4]) for i in range(4)]
@@ -605,7 +651,7 @@ def run(ctx):
                 "bipartitions (additivity; weights with 3 backgrounds; complements), rigid motions (23 octahedral + 3 generic rotations + 3 translations + 1 "
                 "combined: all of them on every %dth configuration, 3 on the others); distinct = elements and configurations"
                 % (kmax, ELEMENTS, len(configs), "", 5 if ctx.thorough else 20))
-    ctx.bounds = {"configurations": len(configs), "max_atoms": kmax, "rel_tol": REL, "batch_sizes": list(bs), "element_pairs": "all 103 x 103 ordered pairs (density and share) + one molecule of all 103 elements in 3 orders", "extended_clusters": "%d clusters with exterior atoms 3..30 A from the interior, points on shells round every atom" % len(far)}
+    ctx.bounds = {"configurations": len(configs), "max_atoms": kmax, "rel_tol": REL, "batch_sizes": list(bs), "far_from_origin": "a 5-atom molecule displaced by 0, 3e2, 2e3, 3e3, 2e4 A (reference at the float32-rounded coordinates)", "element_pairs": "all 103 x 103 ordered pairs (density and share) + one molecule of all 103 elements in 3 orders", "extended_clusters": "%d clusters with exterior atoms 3..30 A from the interior, points on shells round every atom" % len(far)}
     ctx.assumptions = ["the reference is evaluated at the float32-rounded coordinates the kernel receives", "beyond the table end either fill value (last tabulated value or 0) is accepted",
                        "points within 0.3 A of a nucleus excluded, as the property says", "compiled kernel exercised as built; Python-side row binding, unit handling and wrappers are live"]
     ctx.sample({"a_configuration": {"sites": [0, 4], "zs": [8, 1]}, "n_points": int(len(eval_points(SITES[[0, 4]])))})
@@ -622,6 +668,8 @@ def replay(ctx, case):
         argument_history_worker(ctx, None)
     elif case["kind"] == "cluster":
         cluster_worker(ctx, case["natoms"])
+    elif case["kind"] == "far-origin":
+        far_origin_worker(ctx, tuple(case["offset"]))
     elif case["kind"] == "pair":
         pairs_worker(ctx, [case["z1"]])
     elif case["kind"] == "all-elements":
